@@ -43,8 +43,12 @@ def run(ctx):
     S2 = rep.rule('C06.R2', 'only successful reloads write (shared with C06)', floor=6)
     S3 = rep.rule('C08.R3', 'the reloader still answers when a reload panics (shared with C08)', floor=1)
     S4 = rep.rule('C05.R1', 'an entry is recorded before the source is asked for it, so a failed read is still a dependency and its repair is noticed (shared with C05)', floor=5)
+    S5 = rep.rule('C11.R3', 'a directory walk reports the error of the listing it could not make: RecursiveDirectory::load propagates the error of its own directory and of sub_directories, and the default sub_directories returns the result of read_dir as it is (shared with C11)', floor=3)
     for cfg, F in ctx.cfgs():
         hr = 'hot-reloading' in ctx.cfg_features[cfg]
+        from c11 import r3 as walk_reports_errors
+        walk_reports_errors(S5, cfg, F)
+        S5.finish_cfg(cfg)
         if hr:
             from c05 import r1 as record_before_read
             record_before_read(S4, cfg, F)
